@@ -146,7 +146,9 @@ class Translator:
                 continue
             if idx in ends:
                 c = ends[idx][1]
-                C.append("        } while (%s);" % ("zf" if c in ("je", "jz") else "!zf"))
+                cond = "zf" if c in ("je", "jz") else "!zf"
+                C.append("        VF_SPIN_CHECK(%s);" % cond)
+                C.append("        } while (%s);" % cond)
                 continue
             m = re.match(r"^(\w+):$", ln)
             if m:
